@@ -2009,7 +2009,13 @@ def add(
 
         all_unstaged_paths = list(
             get_unstaged_changes(
-                index, r.path, filter_callback, preload_index, trust_ctime
+                index,
+                r.path,
+                filter_callback,
+                preload_index,
+                trust_ctime,
+                honor_filemode=config.get_boolean(b"core", b"filemode", os.name != "nt"),
+                has_symlinks=config.get_boolean(b"core", b"symlinks", True),
             )
         )
 
@@ -3942,6 +3948,8 @@ def status(
                 preload_index,
                 trust_ctime,
                 max_stat,
+                honor_filemode=config.get_boolean(b"core", b"filemode", os.name != "nt"),
+                has_symlinks=config.get_boolean(b"core", b"symlinks", True),
             )
         )
 
